@@ -277,6 +277,19 @@ theorem slice_with_positive_step_takes_every_kth (xs : List Val) (k : Nat) (hk :
   obtain ⟨h3, h4⟩ := slice_step_elems xs k hk
   exact ⟨_, h1, h2, h3, h4⟩
 
+/-- **`xs[::-k]` with `k > 0` takes every `k`-th element counted from the LAST one backwards**: `⌈n / k⌉` elements, the `j`-th
+    being `xs[n - 1 - j * k]`, and `j * k < n` for each of them (so every selected position lies inside the list).
+    `k = 1` is the reversal of `slice_with_step_minus_one_reverses`. With the positive case and the refused zero step this
+    settles `[::k]` for every integer `k` -/
+theorem slice_with_negative_step_takes_every_kth_from_the_end (xs : List Val) (k : Nat) (hk : 0 < k) :
+    ∃ idx, sliceIndices xs.length none none (some (-(k : Int))) = .ok idx ∧
+      (∀ j, j < (xs.length + k - 1) / k → j * k < xs.length) ∧
+      (pick xs idx).length = (xs.length + k - 1) / k ∧
+      ∀ j, j < (xs.length + k - 1) / k → (pick xs idx)[j]? = xs[xs.length - 1 - j * k]? := by
+  obtain ⟨h1, h2⟩ := slice_neg_step_indices xs.length k hk
+  obtain ⟨h3, h4⟩ := slice_neg_step_elems xs k hk
+  exact ⟨_, h1, h2, h3, h4⟩
+
 /-- **a zero step is refused** whatever the bounds (`ValueError: slice step cannot be zero`), it never selects anything -/
 theorem slice_with_zero_step_is_refused (n : Nat) (a b : Option Int) :
     sliceIndices n a b (some 0) = .error .valueError :=
@@ -309,6 +322,22 @@ theorem step_slice_read_returns_new_list (s : BState) (a : Nat) (xs : List Val) 
   refine ⟨pick xs idx, ?_, h3, h4, SqProps.C13.of_allocList rfl⟩
   unfold pyGetItem
   simp only [hg, h1]
+
+/-- **reading `c[::-k]` (`k > 0`) from a list object** returns a NEW list object holding every `k`-th element from the end
+    backwards, and leaves every object that existed before as it was -/
+theorem negative_step_slice_read_returns_new_list (s : BState) (a : Nat) (xs : List Val) (k : Nat) (hk : 0 < k)
+    (hg : s.heap.get? a = some (.list xs)) :
+    ∃ ys, pyGetItem s (.ref a) (.slice none none (some (-(k : Int)))) = .ok (allocList s ys) ∧
+      ys.length = (xs.length + k - 1) / k ∧ (∀ j, j < (xs.length + k - 1) / k → ys[j]? = xs[xs.length - 1 - j * k]?) ∧
+      SqProps.C13.HeapExt s.heap (allocList s ys).2.heap := by
+  obtain ⟨idx, h1, _, h3, h4⟩ := slice_with_negative_step_takes_every_kth_from_the_end xs k hk
+  refine ⟨pick xs idx, ?_, h3, h4, SqProps.C13.of_allocList rfl⟩
+  unfold pyGetItem
+  simp only [hg, h1]
+
+/-- `[10, 20, 30, 40, 50][::-2]` = `[50, 30, 10]`, `[10, 20, 30, 40][::-3]` = `[40, 10]` -/
+example : pick [10, 20, 30, 40, 50] ((sliceIndices 5 none none (some (-2))).toOption.getD []) = [50, 30, 10] ∧
+    pick [10, 20, 30, 40] ((sliceIndices 4 none none (some (-3))).toOption.getD []) = [40, 10] := by decide +kernel
 
 /-- reading `c[a:b:0]`-shaped slice values from a list object is refused and allocates nothing -/
 theorem zero_step_slice_read_is_refused (s : BState) (a : Nat) (xs : List Val) (lo hi : Option Int)
